@@ -19,7 +19,8 @@ EXPLANATION = (
     " (6c) udp-target: in the direct connector's UDP writer a destination other than the session target is chosen only under `session target is unspecified`; the first-match search may also be spelled as a for loop with break."
     ' LAZY: the builtins the language documents as lazily evaluated (&&, ||, if) keep one deciding operand whose evaluation dominates the others, and every other operand can be bypassed on a successful path (a strict && turns `guard && partial` into a filter that fails, i.e. a rule that does not match).'
     ' host-with-port: what the `host` arm of an attribute getter calls renders an IP address or the stored name, never a whole socket address.'
-    ' HDR: the header lookups of the HTTP codec compare names without regard to case (the feature of a request is read from its Proxy-Protocol header).')
+    ' HDR: the header lookups of the HTTP codec compare names without regard to case (the feature of a request is read from its Proxy-Protocol header).'
+    ' SHRU: `>>>` shifts the unsigned reinterpretation of its operand.')
 RULE_TEXT = "instances = dominance queries, call sites and table rows listed above"
 TRUSTED = ["cidr::AnyIpCidr::contains implements CIDR containment", "milu evaluator computes the filter's value (C08 covers soundness only)"]
 NOT_DECIDED = ["CIDR arithmetic itself", "that the evaluator computes the mathematical value of a filter"]
@@ -144,6 +145,8 @@ def run(chk, prog):
     # evaluated instead turns `true || <error>` into a filter that fails, i.e. into a rule that does not match
     from .c08 import rule_lazy
     rule_lazy(chk, prog, "LAZY")
+    from .c08 import rule_unsigned_shift
+    rule_unsigned_shift(chk, prog, "SHRU")
     rule_header_lookup(chk, prog)
     pr = prog.one(r"^process_request$")
     f = prog.body_of(pr)
